@@ -32,6 +32,12 @@ pub struct OptCfg {
     pub max_step: f64,
     pub convergence: Option<f64>,
     pub seed: u64,
+    /// order in which the builder's setters are called (0 = steps, inner_steps, kt_start, ...;
+    /// otherwise a permutation drawn from this number): the optimiser built must not depend on it
+    pub order: u64,
+    /// the builder configured (and built) another run with these (steps, inner_steps) before being
+    /// reconfigured completely for this one
+    pub prior: Option<(u64, u64)>,
 }
 
 impl OptCfg {
@@ -45,6 +51,14 @@ impl OptCfg {
             .set("max_step_size", J::f64bits(self.max_step))
             .set("convergence", J::opt_f64bits(self.convergence))
             .set("seed", J::uint(self.seed))
+            .set("builder_order", J::uint(self.order))
+            .set(
+                "builder_prior",
+                match self.prior {
+                    Some((a, b)) => J::Arr(vec![J::uint(a), J::uint(b)]),
+                    None => J::Null,
+                },
+            )
     }
     pub fn from_json(j: &J) -> Result<OptCfg, String> {
         let f = |k: &str| -> Result<f64, String> {
@@ -63,6 +77,8 @@ impl OptCfg {
             max_step: f("max_step_size")?,
             convergence: o("convergence"),
             seed: u("seed")?,
+            order: j.get("builder_order").and_then(|x| x.as_u64()).unwrap_or(0),
+            prior: j.get("builder_prior").and_then(|a| a.as_arr()).and_then(|a| Some((a.get(0)?.as_u64()?, a.get(1)?.as_u64()?))),
         })
     }
     /// Build through the public API only.  `kt_finish = None` is reachable only through the
@@ -77,13 +93,50 @@ impl OptCfg {
             }
             None => BuildOptimiser::from_iter_safe(&["opt"]).map_err(|e| format!("structopt: {}", e))?,
         };
-        b.steps(self.steps)
-            .inner_steps(self.inner)
-            .kt_start(self.kt_start)
-            .kt_ratio(self.kt_ratio)
-            .max_step_size(self.max_step)
-            .convergence(self.convergence)
-            .seed(self.seed);
+        if let Some((ps, pi)) = self.prior {
+            // builder reuse: it is first set up for (and builds) some other run
+            b.steps(ps).inner_steps(pi).kt_start(0.5).max_step_size(0.3).seed(1);
+            let _ = b.build();
+        }
+        let me = self.clone();
+        let mut setters: Vec<Box<dyn Fn(&mut BuildOptimiser)>> = vec![
+            Box::new(move |b| {
+                b.steps(me.steps);
+            }),
+            Box::new(move |b| {
+                b.inner_steps(me.inner);
+            }),
+            Box::new(move |b| {
+                b.kt_start(me.kt_start);
+            }),
+            Box::new(move |b| {
+                b.kt_ratio(me.kt_ratio);
+            }),
+            Box::new(move |b| {
+                b.max_step_size(me.max_step);
+            }),
+            Box::new(move |b| {
+                b.convergence(me.convergence);
+            }),
+            Box::new(move |b| {
+                b.seed(me.seed);
+            }),
+        ];
+        if let Some(f) = self.kt_finish {
+            setters.push(Box::new(move |b| {
+                b.kt_finish(f);
+            }));
+        }
+        if self.order != 0 {
+            let mut rng = Rng::new(self.order);
+            for i in (1..setters.len()).rev() {
+                let j = rng.below(i as u64 + 1) as usize;
+                setters.swap(i, j);
+            }
+        }
+        for f in &setters {
+            f(&mut b);
+        }
         Ok(b)
     }
     pub fn inner_eff(&self) -> u64 {
@@ -119,6 +172,10 @@ pub struct ParamSpec {
     pub start_mode: String,
     /// fraction of coordinates with min == max
     pub zero_width: f64,
+    /// fraction of coordinates whose start value lies OUTSIDE [min, max] (states read from a file
+    /// or built by hand can carry such values; proposals are clamped into the range, a rejected
+    /// proposal must still restore the out-of-range value bit for bit)
+    pub outside: f64,
 }
 
 impl ParamSpec {
@@ -129,6 +186,7 @@ impl ParamSpec {
             .set("range_mode", J::str(self.range_mode.clone()))
             .set("start_mode", J::str(self.start_mode.clone()))
             .set("zero_width", J::f64bits(self.zero_width))
+            .set("outside", J::f64bits(self.outside))
     }
     pub fn from_json(j: &J) -> Result<ParamSpec, String> {
         Ok(ParamSpec {
@@ -137,6 +195,7 @@ impl ParamSpec {
             range_mode: j.get("range_mode").and_then(|x| x.as_str()).ok_or("params.range_mode")?.to_string(),
             start_mode: j.get("start_mode").and_then(|x| x.as_str()).ok_or("params.start_mode")?.to_string(),
             zero_width: j.get("zero_width").and_then(|x| x.as_f64bits()).unwrap_or(0.0),
+            outside: j.get("outside").and_then(|x| x.as_f64bits()).unwrap_or(0.0),
         })
     }
     pub fn bounds(&self, i: usize) -> (f64, f64) {
@@ -163,6 +222,11 @@ impl ParamSpec {
     pub fn start(&self, i: usize) -> f64 {
         let (lo, hi) = self.bounds(i);
         let i64_ = i as u64;
+        if self.outside > 0.0 && u01(h3(self.salt, i64_, 8)) < self.outside {
+            let w = if hi > lo { hi - lo } else { 1.0 };
+            let off = w * (0.05 + 0.6 * u01(h3(self.salt, i64_, 9)));
+            return if h3(self.salt, i64_, 10) & 1 == 0 { hi + off } else { lo - off };
+        }
         let mode: &str = match self.start_mode.as_str() {
             "mixed" => ["interior", "interior", "bounds"][(h3(self.salt, i64_, 5) % 3) as usize],
             m => m,
@@ -655,6 +719,7 @@ pub fn gen_params(rng: &mut Rng, n_choices: &[(usize, u32)]) -> ParamSpec {
         range_mode: rng.pick(&["unit", "sym", "wide", "mixed"]).to_string(),
         start_mode: rng.pick(&["interior", "bounds", "mixed"]).to_string(),
         zero_width: *rng.pick(&[0.0, 0.0, 0.0, 0.2]),
+        outside: 0.0,
     }
 }
 
